@@ -598,7 +598,11 @@ namespace {
                prepare(a); prepare(b);
                body(shape, p, salt, a);
                body(shape, p, salt, b);
-               if (a.trace != b.trace) { std::fprintf(stderr, "HARNESS-ERROR program %s is not deterministic when run alone\n", program_name[p]); std::exit(2); }
+               // (the programs print no addresses and read no clock: the same program on a second Lexicon, with nothing else going on,
+               //  can only observe something else if the first Lexicon left something behind)
+               if (a.trace != b.trace)
+                  rep.violation(std::string("C20:second-run-alone-differs:") + program_name[p], p, std::string("running ") + program_name[p] + " alone, twice in a row on fresh Lexicons, observes two different things",
+                                vf::JObj{}.str("pass", "C20").raw("ops", vf::jarr(std::vector<long long>{ 3, shape, p, salt })).raw("schedule", "[]").done());
                if (a.balance_blocks != 0) { sched::Quiet q; /* one-time runtime allocations are absorbed by the first run */ }
                reference[shape][p][salt] = { a.trace };
             }
@@ -688,7 +692,7 @@ int main(int argc, char** argv)
       auto ops = vf::json_int_array(text, "ops");
       auto schedule = vf::json_int_array(text, "schedule");
       if (ops.size() < 2) { std::printf("bad replay file\n"); return 2; }
-      if (ops[0] == 2) { for (auto& [k, v] : rep.viols) std::printf("violated: %s  (%s)\n", k.c_str(), v.what.c_str()); return rep.viols.empty() ? 0 : 1; }
+      if (ops[0] == 2 or ops[0] == 3) { for (auto& [k, v] : rep.viols) std::printf("violated: %s  (%s)\n", k.c_str(), v.what.c_str()); return rep.viols.empty() ? 0 : 1; }
       Config cfg{ int(ops[0]), { } };
       for (std::size_t i = 1; i < ops.size(); ++i) cfg.progs.push_back(int(ops[i]));
       std::vector<int> prefix(schedule.begin(), schedule.end());
